@@ -673,7 +673,8 @@ func c17Run(c *Ctx, cs c17Case) {
 func runC17(c *Ctx) {
 	c.Res.Rule = "direct: structured valid profiles (small name/location alphabets so that recursion, inlined lines, " +
 		"equal names in different files, locations without lines and empty stacks are frequent; 1–3 sample types, every " +
-		"sample index; negative/zero values; names \"\" and non-UTF-8 on a separate share) aggregated with the exported " +
+		"sample index; negative/zero values; names \"\" and non-UTF-8 on a separate share; in 8% of the cases function/file " +
+		"names of boundary lengths 0/1/1023..1026/2048/4096/65536 in seven separator shapes) aggregated with the exported " +
 		"Profile.Aggregate per granularity (raw, functions, filefunctions, files, lines, addresses ± noinlines ± columns), " +
 		"then report.New(p, opts).Stacks(); plus hand-built shapes (a a a, a b a b, inlined+non-inlined same function, " +
 		"no samples, only empty stacks). web: ASCII profiles through driver.PProf(-http) with the HTTPServer hook, GET " +
